@@ -201,6 +201,30 @@ func c08GCMaps(c *rt.Ctx, sub0 int) {
 	}
 }
 
+// Container types that contain themselves without a struct in between: the encoder's compiler
+// recurses on them until the stack is gone (KF-C08-SELFREF); own shape tag, the process dies.
+type c08SelfSlice []c08SelfSlice
+type c08SelfMap map[string]c08SelfMap
+
+func c08SelfRefTypes(c *rt.Ctx, sub0 int) {
+	vals := []any{c08SelfSlice{c08SelfSlice{}, c08SelfSlice{c08SelfSlice{}}}, c08SelfMap{"a": c08SelfMap{"b": nil}}}
+	for i, x := range vals {
+		if !c.Cur(sub0+i, fmt.Sprintf("shapes=selfref-container-type\nMarshal of an acyclic value of the self-referential container type %T", x)) {
+			continue
+		}
+		var out []byte
+		var err error
+		pan, msg, frame := rt.Guard(func() { out, err = gojson.Marshal(x) })
+		c.Eval(1)
+		want, _ := stdjson.Marshal(x)
+		if pan || err != nil || string(out) != string(want) {
+			c.Violate(rt.Violation{Monitor: "enc-safety", Entry: "vm", Kind: "selfref-container-type", Ctx: frame + " @ selfref-container-type",
+				Detail: fmt.Sprintf("%T: got %s err=%v panic=%v %s; want %s", x, out, err, pan, msg, want), Sub: sub0 + i})
+		}
+		c.Obs("selfref_container_types_survived", 1)
+	}
+}
+
 // c08Run returns false when a call on a cyclic value was abandoned after its deadline; the caller
 // must leave the batch (the worker is replaced once the batch is journalled).
 func c08Run(c *rt.Ctx, sub int, x any, t reflect.Type, feat string, interps []c08Interp, cyclic bool) bool {
@@ -729,6 +753,9 @@ func init() {
 				}
 				c.ObsMax("max_chain_depth", int64(d))
 				c.Sample(map[string]any{"family": "deep chains", "depth": d, "values": len(vals)})
+				if k == 0 {
+					c08SelfRefTypes(c, 5000)
+				}
 			case k < 18:
 				// cycles of length 1..N through pointers, maps, slices and interfaces
 				ns := []int{0, 1, 2, 5, 20, 300}
